@@ -28,7 +28,12 @@ ASSUMPTIONS = ["os.urandom is an oracle: 'fresh random seed' is checked as 'the 
                "Ledger onboarding is followed up to the device-side onboarding; the attestation setup that follows "
                "is C15's subject"]
 
-PINS = {"valid": "abcd1234", "short": "abc123", "digits": "12345678", "symbols": "abcd12!@", "long": "abcdefgh1"}
+PINS = {"valid": "abcd1234", "short": "abc123", "digits": "12345678", "symbols": "abcd12!@", "long": "abcdefgh1",
+        # 8 bytes once encoded, letters and digits only for str.isalnum(), but not ASCII
+        "latin1": "clave1\u00f3", "latin1-digits": "123456\u00fc", "fullwidth": "abc12\uff11", "sup": "abcde1\u00b2"}
+ODD_PINS = ["latin1", "latin1-digits", "fullwidth", "sup"]
+NOT_YES = [[""], ["y"], ["ye"], ["es"], ["s"], ["e"], ["yess"], ["yes please"], [" yes"], ["\tyes"], ["ja"],
+           ["", "", "no"], ["y", "e", "s"]]
 
 
 def policy_ok(p, any_pin):
@@ -50,8 +55,13 @@ def run(ctx):
     answers = [["yes"], ["no"], ["N"], ["maybe", "Yes "], [], ["y", "yes"]]
     for kind, mode, onb, echo_bad in itertools.product(["ledger", "sgx"], modes, [False, True], [False, True]):
         # ---------------- onboard
-        for pin_kind, any_pin, ans in itertools.product(["valid", "short", "digits", "symbols", None],
-                                                        [False, True], answers):
+        combos = list(itertools.product(["valid", "short", "digits", "symbols", None], [False, True], answers))
+        if mode == 2 and not onb and not echo_bad:
+            # answers that are not an explicit yes: empty line, fragments and supersets of "yes"
+            combos += [("valid", False, a) for a in NOT_YES]
+            # PINs that are 8 characters long but not ASCII alphanumerics
+            combos += [(pk, ap, ["yes"]) for pk in ODD_PINS for ap in (False,)]
+        for pin_kind, any_pin, ans in combos:
             typed = [b"zz", b"12345678", b"longerthan8x", b"good1234"] if pin_kind is None else []
             seed = gen.rbytes(rng, 32)
             d = devices.Device(mode=mode, onboarded=onb, sgx=(kind == "sgx"))
@@ -62,7 +72,9 @@ def run(ctx):
             account(res, dist, "onboard", obs)
             destructive = [e[1] for e in obs["trace"] if e[0] == "A" and e[1][1] in (0x44, 0x07, 0xA0)
                            or (e[0] == "A" and e[1][1] == 0x41)]
-            said_yes = next((a.strip().lower() for a in ans if a.strip().lower() in ("yes", "n", "no")), None) == "yes"
+            # explicit yes: the first line that is a decision (yes / n / no, trailing blanks and case
+            # ignored) is a yes; anything else is not a decision and the question is asked again
+            said_yes = next((a.rstrip().lower() for a in ans if a.rstrip().lower() in ("yes", "n", "no")), None) == "yes"
             pre = mode == 2 and not echo_bad and not onb and said_yes
             if destructive and not pre:
                 res["violations"].append({"key": "C18:onboard-precondition", "what": "seed / PIN / wipe sent "
@@ -109,9 +121,16 @@ def run(ctx):
             descs.append({"cmd": "unlock", "state": [kind, mode, onb, echo_bad, pin_kind, any_pin],
                           "outcome": obs["outcome"], "error": obs["error"]})
         # ---------------- changepin
-        for new_kind, any_pin, no_unlock in itertools.product(["valid", "short", "digits", "symbols", None],
-                                                              [False, True], [False, True]):
+        cp_combos = list(itertools.product(["valid", "short", "digits", "symbols", None],
+                                           [False, True], [False, True]))
+        if mode == 2 and onb and not echo_bad:
+            cp_combos += [(pk, ap, True) for pk in ODD_PINS for ap in (False, True)]
+            cp_combos += [("typed-odd", False, True)]
+        for new_kind, any_pin, no_unlock in cp_combos:
             typed = ([b"abcd1234"] if not no_unlock else []) + ([b"12", b"newpin12"] if new_kind is None else [])
+            if new_kind == "typed-odd":
+                typed = ["clave1\u00f3".encode(), "123456\u00fc".encode(), b"newpin12"]
+                new_kind = None
             d = devices.Device(mode=mode, onboarded=onb, sgx=(kind == "sgx"))
             d.echo_bad = echo_bad
             d.pin = b"abcd1234"
